@@ -346,6 +346,14 @@ func c02Run(u *vfUnit) {
 			if !vfLegalReply(req.Type, p.Type) {
 				u.Violation("illegal-reply-type:"+kind.String()+":"+rfTypeName(req.Type)+"->"+rfTypeName(p.Type), fmt.Sprintf("%s: request %s answered with %s", label, req, p), witness())
 			}
+			if p.Type == rfStatus && p.Code == rfOK {
+				switch req.Type {
+				case rfOpen, rfOpendir, rfRead, rfReaddir, rfReadlink, rfRealpath, rfLstat, rfFstat, rfStat:
+					// success of these requests is a HANDLE / DATA / NAME / ATTRS reply; a bare "OK" answers a
+					// question that was not asked (e.g. a READ carried out as something else)
+					u.Violation("illegal-reply-type:"+kind.String()+":"+rfTypeName(req.Type)+"->STATUS-OK", fmt.Sprintf("%s: request %s answered with %s", label, req, p), witness())
+				}
+			}
 			if p.Type == rfData && req.Type == rfRead && uint32(len(p.Data)) > req.Len {
 				u.Violation("data-longer-than-requested:"+kind.String(), fmt.Sprintf("%s: %s answered with %d bytes", label, req, len(p.Data)), witness())
 			}
